@@ -1,4 +1,4 @@
 #!/bin/sh
 # usage: tw.sh <twin id> <checks...>  -- apply a stored twin to /tmp/wtm and show what the checks say
 t=$1; shift
-echo "== $t"; WIDTH=${WIDTH:-420} sh /verif/tools/try_patch.sh /verif/seeded/_twins/$t/patch.diff "$@" | grep -v KNOWN
+echo "== $t"; WIDTH=${WIDTH:-420} sh /verif/tools/try_patch.sh /verif/seeded/${TWDIR:-_twins}/$t/patch.diff "$@" | grep -v KNOWN
